@@ -22,6 +22,7 @@ package main
 import (
 	"bytes"
 	"context"
+	"database/sql"
 	"errors"
 	"fmt"
 	"io"
@@ -41,6 +42,8 @@ import (
 	sqlMetadataStore "github.com/jdillenkofer/pithos/internal/storage/metadatapart/metadatastore/sql"
 	"github.com/jdillenkofer/pithos/internal/storage/metadatapart/partstore"
 	filesystemPartStore "github.com/jdillenkofer/pithos/internal/storage/metadatapart/partstore/filesystem"
+	"github.com/jdillenkofer/pithos/internal/storage/metadatapart/partstore/middlewares/compression"
+	sqlPartStore "github.com/jdillenkofer/pithos/internal/storage/metadatapart/partstore/sql"
 )
 
 type c14 struct{}
@@ -131,6 +134,7 @@ type c14Env struct {
 	base    [3]int
 	buckets [2]string
 	status  [2]string // "U" unversioned, "E" enabled, "S" suspended
+	kinds   string    // one letter per store: f filesystem, c compression/filesystem, q SQL part store, d compression/SQL
 	vers    []c14Ver
 	orc     *c14Oracle
 	tags    map[string]bool
@@ -145,10 +149,27 @@ func (e *c14Env) open(mapping map[string]int) error {
 		e.st = nil
 	}
 	e.stores = nil
-	for _, n := range c14StoreNames {
-		ps, err := filesystemPartStore.New(filepath.Join(e.pe.dir, "parts-"+n))
+	for i, n := range c14StoreNames {
+		kind := e.kinds[i]
+		var ps partstore.PartStore
+		var err error
+		switch kind {
+		case 'f', 'c':
+			ps, err = filesystemPartStore.New(filepath.Join(e.pe.dir, "parts-"+n+"-"+string(kind)))
+		default: // 'q', 'd': database-backed, needs the ambient transaction
+			repo, rerr := repositoryFactory.NewPartContentRepository(e.pe.db)
+			if rerr != nil {
+				return rerr
+			}
+			ps, err = sqlPartStore.New(e.pe.db, repo, sqlPartStore.WithPartStoreId("c14-"+n+"-"+string(kind)))
+		}
 		if err != nil {
 			return err
+		}
+		if kind == 'c' || kind == 'd' {
+			if ps, err = compression.New(ps); err != nil {
+				return err
+			}
 		}
 		e.stores = append(e.stores, ps)
 	}
@@ -173,69 +194,108 @@ func (e *c14Env) open(mapping map[string]int) error {
 	return nil
 }
 
+// GetPartIds / GetPart of a store, inside a read transaction (the DB-backed kinds need one)
 func (e *c14Env) partIDs(i int) (map[string]bool, error) {
-	ids, err := e.stores[i].GetPartIds(c14Ctx, nil)
-	if err != nil {
-		return nil, err
-	}
 	m := map[string]bool{}
-	for _, id := range ids {
-		m[id.String()] = true
-	}
-	return m, nil
+	err := database.WithTx(c14Ctx, e.pe.db, &sql.TxOptions{ReadOnly: true}, func(ctx context.Context, tx database.Tx) error {
+		ids, err := e.stores[i].GetPartIds(ctx, tx)
+		if err != nil {
+			return err
+		}
+		for _, id := range ids {
+			m[id.String()] = true
+		}
+		return nil
+	})
+	return m, err
 }
+
 // number of distinct contents of THIS case each store holds (see Model/Transition.v count_store)
 func (e *c14Env) rawCounts() ([3]int, error) {
 	var c [3]int
-	prefix := []byte(fmt.Sprintf("<%d.%d:", os.Getpid(), e.seq))
+	prefix := []byte(fmt.Sprintf("<%010d.%06d:", os.Getpid(), e.seq))
 	for i := range e.stores {
-		ids, err := e.stores[i].GetPartIds(c14Ctx, nil)
+		seen := map[string]bool{}
+		err := database.WithTx(c14Ctx, e.pe.db, &sql.TxOptions{ReadOnly: true}, func(ctx context.Context, tx database.Tx) error {
+			ids, err := e.stores[i].GetPartIds(ctx, tx)
+			if err != nil {
+				return err
+			}
+			for _, id := range ids {
+				r, err := e.stores[i].GetPart(ctx, tx, id)
+				if err != nil {
+					continue
+				}
+				b, _ := io.ReadAll(r)
+				r.Close()
+				if bytes.HasPrefix(b, prefix) {
+					seen[string(b)] = true
+				}
+			}
+			return nil
+		})
 		if err != nil {
 			return c, err
-		}
-		seen := map[string]bool{}
-		for _, id := range ids {
-			r, err := e.stores[i].GetPart(c14Ctx, nil, id)
-			if err != nil {
-				continue // deleted meanwhile by another worker's case? pools are exclusive, so: not ours
-			}
-			b, _ := io.ReadAll(r)
-			r.Close()
-			if bytes.HasPrefix(b, prefix) {
-				seen[string(b)] = true
-			}
 		}
 		c[i] = len(seen)
 	}
 	return c, nil
 }
 
+// content c: a 23 byte header unique to process+case+content id, then (c mod 7)*5 filler bytes (Model: clen)
 func (e *c14Env) content(c int) []byte {
-	// unique per process and case: the pooled database must never deduplicate across cases or runs
-	return []byte(fmt.Sprintf("<%d.%d:%d>%s", os.Getpid(), e.seq, c, strings.Repeat("x", (c%7)*5)))
+	return []byte(fmt.Sprintf("<%010d.%06d:%03d>%s", os.Getpid(), e.seq, c, strings.Repeat("x", (c%7)*5)))
+}
+
+// chunk layout of a body: content ids and their lengths; ok=false if the body is not a sequence of this case's contents
+func (e *c14Env) layout(body []byte) (ids []int, ok bool) {
+	for len(body) > 0 {
+		if len(body) < 23 || body[0] != '<' || body[22] != '>' {
+			return nil, false
+		}
+		var pid, seq, c int
+		if n, err := fmt.Sscanf(string(body[:23]), "<%010d.%06d:%03d>", &pid, &seq, &c); err != nil || n != 3 || pid != os.Getpid() || seq != e.seq {
+			return nil, false
+		}
+		want := e.content(c)
+		if !bytes.HasPrefix(body, want) {
+			return nil, false
+		}
+		ids = append(ids, c)
+		body = body[len(want):]
+	}
+	return ids, true
 }
 func (e *c14Env) decode(body []byte) string {
 	if len(body) == 0 {
 		return "-"
 	}
-	var out []string
-	for _, ch := range strings.Split(string(body), "<")[1:] {
-		i := strings.IndexByte(ch, '>')
-		if i < 0 {
-			return "?"
-		}
-		f := strings.Split(ch[:i], ":")
-		if len(f) != 2 || f[0] != strconv.Itoa(os.Getpid())+"."+strconv.Itoa(e.seq) {
-			return "?"
-		}
-		c, err := strconv.Atoi(f[1])
-		if err != nil || string(e.content(c)) != "<"+ch {
-			return "?"
-		}
-		out = append(out, f[1])
-	}
-	if !bytes.HasPrefix(body, []byte("<")) {
+	ids, ok := e.layout(body)
+	if !ok {
 		return "?"
+	}
+	out := make([]string, len(ids))
+	for i, c := range ids {
+		out[i] = strconv.Itoa(c)
+	}
+	return strings.Join(out, ".")
+}
+
+// segments (content id @ offset + length) of body[start:end) according to the chunk layout
+func (e *c14Env) segments(body []byte, start, end int) string {
+	ids, ok := e.layout(body)
+	if !ok {
+		return "?"
+	}
+	var out []string
+	pos := 0
+	for _, c := range ids {
+		l := len(e.content(c))
+		lo, hi := max(start, pos), min(end, pos+l)
+		if lo < hi {
+			out = append(out, fmt.Sprintf("%d@%d+%d", c, lo-pos, hi-lo))
+		}
+		pos += l
 	}
 	return strings.Join(out, ".")
 }
@@ -343,6 +403,7 @@ type c14Obs struct {
 	etag, vid, partIDs               string
 	size                             int64
 	partsOK                          string // "" or why a part row does not point at stored bytes
+	body                             []byte
 }
 
 // "s" = MD5-of-content ETag, "m<n>" = multipart-style ETag over n parts
@@ -385,7 +446,7 @@ func (e *c14Env) read(b, k int, v string) (*c14Obs, string) {
 	if rerr != nil {
 		return nil, "Unreadable"
 	}
-	o := &c14Obs{class: storage.EffectiveStorageClass(obj.StorageClass), content: e.decode(body), etag: obj.ETag, size: obj.Size}
+	o := &c14Obs{class: storage.EffectiveStorageClass(obj.StorageClass), content: e.decode(body), etag: obj.ETag, size: obj.Size, body: body}
 	if obj.VersionID != nil {
 		o.vid = *obj.VersionID
 	}
@@ -454,6 +515,73 @@ func (e *c14Env) counts() string {
 		return "CountErr"
 	}
 	return fmt.Sprintf("%d,%d,%d", c[0], c[1], c[2])
+}
+
+// ranged GetObject of a version: returns per range the bytes, or an error code
+func (e *c14Env) readRanges(b, k int, v string, rs [][2]int64) ([][]byte, string) {
+	vid, known := e.ver(b, k, v)
+	if !known {
+		return nil, "NoSuchVersion"
+	}
+	var opts *storage.GetObjectOptions
+	if vid != nil {
+		opts = &storage.GetObjectOptions{VersionID: vid}
+	}
+	brs := make([]storage.ByteRange, len(rs))
+	for i := range rs {
+		st, en := rs[i][0], rs[i][1]
+		brs[i] = storage.ByteRange{Start: &st, End: &en}
+	}
+	_, readers, err := e.st.GetObject(c14Ctx, e.bucket(b), c14Key(k), brs, opts)
+	if err != nil {
+		if err == storage.ErrInvalidRange {
+			return nil, "InvalidRange"
+		}
+		return nil, c14ErrName(err)
+	}
+	// read the ranges in REVERSE order and close each reader as soon as it is drained: every reader must work
+	// independently of the others (a shared read transaction must outlive the first Close)
+	out := make([][]byte, len(readers))
+	var first error
+	for i := len(readers) - 1; i >= 0; i-- {
+		data, err := io.ReadAll(readers[i])
+		if err != nil && first == nil {
+			first = err
+		}
+		out[i] = data
+		if err := readers[i].Close(); err != nil && first == nil {
+			first = err
+		}
+	}
+	if first != nil {
+		return nil, "Unreadable"
+	}
+	return out, ""
+}
+
+// after a write that routed data by class, or a transition: read the version back in full and by ranges and
+// let the oracle judge bytes, ETag, class and placement
+func (e *c14Env) readBack(what string, n, b, k int) {
+	if n < 0 {
+		return
+	}
+	v := strconv.Itoa(n)
+	o, errc := e.read(b, k, v)
+	if o == nil {
+		e.orc.readErr(n, b, k, v, what+": "+errc)
+		return
+	}
+	e.orc.read(n, b, k, v, o)
+	if what == "put" || what == "copy" || what == "multipart" {
+		e.orc.placed(what, n, o)
+	}
+	size := int64(len(o.body))
+	if size < 2 {
+		return
+	}
+	rs := [][2]int64{{size / 2, size}, {0, 1}, {size/3 + 1, size - 1}}
+	got, errc2 := e.readRanges(b, k, v, rs)
+	e.orc.ranges(what, n, o.body, rs, got, errc2)
 }
 
 // observation of every alive row of a key: ordinal -> rendering (incl. ETag, part ids) or error code
@@ -557,6 +685,7 @@ func (e *c14Env) op(tok string) string {
 			n = e.newRow(b, k, vid)
 		}
 		e.orc.put(n, b, k, cls, cont, meta, tg, st)
+		e.readBack("put", n, b, k)
 		return st
 	case "A":
 		if len(f) != 4 {
@@ -588,6 +717,7 @@ func (e *c14Env) op(tok string) string {
 			after, _ = e.read(b, k, "L")
 		}
 		e.orc.appendOp(n, inPlace, prev, b, k, cont, st, after)
+		e.readBack("append", n, b, k)
 		return st
 	case "C":
 		if len(f) != 7 {
@@ -617,7 +747,101 @@ func (e *c14Env) op(tok string) string {
 			n = e.newRow(db, dk, nv)
 		}
 		e.orc.copy(n, src, db, dk, cls, st)
+		e.readBack("copy", n, db, dk)
 		return st
+	case "MP":
+		if len(f) != 5 {
+			return bad
+		}
+		b, ok1 := c11Int(f[1], 2)
+		k, ok2 := c11Int(f[2], 3)
+		cls, ok3 := c14Cls(f[3])
+		if !ok1 || !ok2 || !ok3 {
+			return bad
+		}
+		var conts []int
+		for _, t := range strings.Split(f[4], ".") {
+			c, err := strconv.Atoi(t)
+			if err != nil || c < 0 || strconv.Itoa(c) != t {
+				return bad
+			}
+			conts = append(conts, c)
+		}
+		var copts *storage.CreateMultipartUploadOptions
+		if cls != nil {
+			copts = &storage.CreateMultipartUploadOptions{StorageClass: cls}
+		}
+		up, err := e.st.CreateMultipartUpload(c14Ctx, e.bucket(b), c14Key(k), nil, nil, copts)
+		st := c14ErrName(err)
+		n := -1
+		if st == "ok" {
+			for i, c := range conts {
+				if _, err := e.st.UploadPart(c14Ctx, e.bucket(b), c14Key(k), up.UploadId, int32(i+1), bytes.NewReader(e.content(c)), nil); err != nil {
+					st = "UploadPart:" + c14ErrName(err)
+					break
+				}
+			}
+		}
+		if st == "ok" {
+			res, err := e.st.CompleteMultipartUpload(c14Ctx, e.bucket(b), c14Key(k), up.UploadId, nil, nil)
+			st = c14ErrName(err)
+			if st == "ok" {
+				vid := "null"
+				if res.VersionID != nil {
+					vid = *res.VersionID
+				}
+				n = e.newRow(b, k, vid)
+			}
+		}
+		e.orc.multipart(n, b, k, cls, conts, st)
+		e.readBack("multipart", n, b, k)
+		return st
+	case "G":
+		if len(f) != 5 {
+			return bad
+		}
+		b, ok1 := c11Int(f[1], 2)
+		k, ok2 := c11Int(f[2], 3)
+		if !ok1 || !ok2 || !c14Sel(f[3]) {
+			return bad
+		}
+		var rs [][2]int64
+		for _, t := range strings.Split(f[4], ",") {
+			ab := strings.Split(t, "-")
+			if len(ab) != 2 {
+				return bad
+			}
+			a, e1 := strconv.ParseInt(ab[0], 10, 62)
+			z, e2 := strconv.ParseInt(ab[1], 10, 62)
+			if e1 != nil || e2 != nil || a < 0 || z < 0 || strconv.FormatInt(a, 10) != ab[0] || strconv.FormatInt(z, 10) != ab[1] {
+				return bad
+			}
+			rs = append(rs, [2]int64{a, z})
+		}
+		if _, known := e.ver(b, k, f[3]); !known {
+			return "NoSuchVersion"
+		}
+		n := e.addressed(b, k, f[3])
+		full, errc := e.read(b, k, f[3])
+		if full == nil {
+			e.orc.readErr(n, b, k, f[3], errc)
+			return errc
+		}
+		got, errc := e.readRanges(b, k, f[3], rs)
+		e.orc.ranges("ranged read", n, full.body, rs, got, errc)
+		if got == nil {
+			return errc
+		}
+		var out []string
+		for i, r := range rs {
+			end := min(r[1], int64(len(full.body)))
+			seg := e.segments(full.body, int(r[0]), int(end))
+			if !bytes.Equal(got[i], full.body[r[0]:end]) {
+				seg = "?"
+			}
+			out = append(out, seg)
+		}
+		return strings.Join(out, ",")
 	case "T", "D", "R":
 		want := map[string]int{"T": 6, "D": 4, "R": 4}[f[0]]
 		if len(f) != want {
@@ -681,6 +905,9 @@ func (e *c14Env) op(tok string) string {
 				ao, _ = e.read(b, k, strconv.Itoa(target))
 			}
 			e.orc.transition(target, b, k, f[3], cls, im, imETag, st, bo, ao, before, after)
+			if st == "ok" {
+				e.readBack("transition", target, b, k)
+			}
 			return st
 		default: // D
 			if !known {
@@ -777,8 +1004,21 @@ func (c14) Run(in string, scratch string) Result {
 	c14CaseSeq++
 	seq := c14CaseSeq
 	c14PoolMu.Unlock()
-	e := &c14Env{pe: pe, seq: seq, tags: map[string]bool{}, orc: c14NewOracle(), status: [2]string{"U", "E"}}
+	e := &c14Env{pe: pe, seq: seq, tags: map[string]bool{}, orc: c14NewOracle(), status: [2]string{"U", "E"}, kinds: "fff"}
+	kindsOut := ""
+	if len(toks) > 1 && strings.HasPrefix(toks[1], "K=") {
+		kd := toks[1][2:]
+		kindsOut = "kinds"
+		if len(kd) != 3 || strings.Trim(kd, "fcqd") != "" {
+			kindsOut = "BadKinds"
+		} else {
+			e.kinds = kd
+		}
+		toks = append([]string{toks[0]}, toks[2:]...)
+	}
+	e.tags["kinds:"+c14KindClass(e.kinds)] = true
 	e.orc.alive = func(n int) bool { return n >= 0 && n < len(e.vers) && e.vers[n].alive }
+	e.orc.bytesOf = e.content
 	if err := e.open(map[string]int{}); err != nil {
 		return Result{Out: "SETUP-ERROR " + err.Error(), Oracle: "FAIL:setup " + err.Error()}
 	}
@@ -802,6 +1042,9 @@ func (c14) Run(in string, scratch string) Result {
 		return Result{Out: "SETUP-ERROR " + err.Error(), Oracle: "FAIL:setup " + err.Error()}
 	}
 	var outs []string
+	if kindsOut != "" {
+		outs = append(outs, kindsOut)
+	}
 	for _, o := range toks[1:] {
 		r := e.op(o)
 		outs = append(outs, r)
@@ -812,7 +1055,7 @@ func (c14) Run(in string, scratch string) Result {
 		e.tags["op:"+kind] = true
 		if r == "ok" {
 			e.tags["ok:"+kind] = true
-		} else if kind != "R" && kind != "S" && kind != "N" && kind != "M" {
+		} else if kind != "R" && kind != "G" && kind != "S" && kind != "N" && kind != "M" {
 			e.tags["err:"+kind+":"+r] = true
 		}
 	}
@@ -834,6 +1077,20 @@ func (c14) Run(in string, scratch string) Result {
 	}
 	sortC14(tags)
 	return Result{Out: strings.Join(outs, " "), Oracle: oracle, Tags: tags}
+}
+
+// "tx-free" (all stores readable without a transaction), "tx-bound" (all need one), "mixed:default-free", "mixed:default-bound"
+func c14KindClass(k string) string {
+	nb := strings.Count(k, "q") + strings.Count(k, "d")
+	switch {
+	case nb == 0:
+		return "tx-free"
+	case nb == len(k):
+		return "tx-bound"
+	case k[0] == 'f' || k[0] == 'c':
+		return "mixed:default-free"
+	}
+	return "mixed:default-bound"
 }
 
 func sortC14(s []string) {
